@@ -5,6 +5,9 @@
 set -u
 TODO=$(realpath "$1"); LANES=${2:-8}
 export MUT_RESULTS=${MUT_RESULTS:-/tmp/iwe-mut/results}
+# every lane keeps its own cargo target directory and every patched tree its own fact file: do not let the cache prune them while the run is in flight
+export IWE_VERIF_TARGET_KEEP=${IWE_VERIF_TARGET_KEEP:-80}
+export IWE_VERIF_CACHE_KEEP=${IWE_VERIF_CACHE_KEEP:-1500}
 mkdir -p "$MUT_RESULTS"
 PROPS=$(python3 -c "import json;print(' '.join(c['property_id'] for c in json.load(open('/verif/MANIFEST.json'))['checks']))")
 lane() {
